@@ -347,7 +347,10 @@ var specs = []*spec{
 		samples: []string{`<key-owner xmlns="urn:xmpp:tm:1" jid="a@example.net"><trust>aGVsbG8=</trust><distrust>aGVsbA==</distrust></key-owner>`}},
 	{name: "crypto.TrustMessage", group: "upload-crypto", typ: typeOf(crypto.TrustMessage{}),
 		pools: map[string][]any{"Keys": P(nil, []crypto.OwnedKeys{{Owner: jidBare, Keys: keysPool[1].([]crypto.Key)}},
-			[]crypto.OwnedKeys{{Owner: jidFull}, {Keys: keysPool[2].([]crypto.Key)}})},
+			[]crypto.OwnedKeys{{Owner: jidFull}, {Keys: keysPool[2].([]crypto.Key)}},
+			// the same owner named by several entries (trusted and distrusted keys collected separately; an empty entry first)
+			[]crypto.OwnedKeys{{Owner: jidBare, Keys: keysPool[1].([]crypto.Key)}, {Owner: jidBare, Keys: keysPool[2].([]crypto.Key)}},
+			[]crypto.OwnedKeys{{Owner: jidBare}, {Owner: jidFull, Keys: keysPool[1].([]crypto.Key)}, {Owner: jidBare, Keys: keysPool[1].([]crypto.Key)}})},
 		samples: []string{`<trust-message xmlns="urn:xmpp:tm:1" usage="urn:xmpp:atm:1" encryption="urn:xmpp:omemo:2"><key-owner jid="a@example.net"><trust>aGVsbG8=</trust><distrust>aGVsbA==</distrust></key-owner></trust-message>`}},
 }
 
